@@ -53,6 +53,10 @@ Accept(c) ==
          -> OkIf(c.n >= 1, {"InvalidSize"})
     [] c.c \in {"slru_new", "slru_builder", "slru_builder_setters"} -> OkIf(c.a >= 1 /\ c.b >= 1, {"InvalidSize"})
     [] c.c \in {"2q_params", "2q_builder"} -> TwoQAccept(c.n, c.rr, c.gr)
+    \* builder setters commute: the outcome depends on the final values only, whatever the order (perm) they were set in,
+    \* and a value set twice counts once (the last one)
+    [] c.c = "2q_builder_perm" -> TwoQAccept(c.n, c.rr, c.gr)
+    [] c.c = "w_builder_perm" -> WAccept(c.w, c.b, c.a, c.s, c.fp)
     [] c.c = "2q_new" -> TwoQAccept(c.n, "quarter", "half")
     [] c.c = "2q_with_recent_ratio" -> TwoQAccept(c.n, c.rr, "half")
     [] c.c = "2q_with_ghost_ratio" -> TwoQAccept(c.n, "quarter", c.gr)
@@ -83,6 +87,8 @@ Grid ==
        [c : {"raw_new", "raw_with_hasher", "raw_with_cb", "raw_with_cb_and_hasher", "arc_new", "arc_builder", "2q_new"}, n : Sizes]
   \cup [c : {"slru_new", "slru_builder", "slru_builder_setters"}, a : Sizes, b : Sizes]
   \cup [c : {"2q_params", "2q_builder"}, n : Sizes, rr : Ratios, gr : Ratios]
+  \cup [c : {"2q_builder_perm"}, perm : 0..5, n : {0, 1, 2, 8}, rr : {"neg", "zero", "quarter", "nan"}, gr : {"zero", "half", "two"}]
+  \cup [c : {"w_builder_perm"}, perm : 0..5, w : {0, 1}, b : {0, 2}, a : {1}, s : {0, 4}, fp : {"nan", "quarter", "one"}]
   \cup [c : {"2q_with_recent_ratio"}, n : Sizes, rr : Ratios]
   \cup [c : {"2q_with_ghost_ratio"}, n : Sizes, gr : Ratios]
   \cup [c : {"w_with_sizes"}, w : {0, 1, 2}, b : {0, 1, 2}, a : {0, 1, 2}, s : SamplesSet]
